@@ -45,4 +45,28 @@ MUTANTS = [
      "edits": [("buffer.go", "\t\tfor len(b.consumers) != 0 {\n\t\t\tb.cond.Wait()\n\t\t}\n", "")]},
     {"id": "c12-close-ignores-uncommitted", "prop": "C12", "note": "consumer Close does not wait for uncommitted reads",
      "edits": [("consumer.go", "\t\tfor c.offset != 0 {\n\t\t\tc.cond.Wait()\n\t\t}\n", "")]},
+    # ---------------- C06
+    {"id": "c06-count-before-lock", "prop": "C06", "note": "Send reads the subscriber count before taking sendingMu",
+     "edits": [("chanpubsub.go", "\t// N.B. released after sending (after pings, before waiting for pongs)\n\tx.sendingMu.Lock()", "\tsubscribers := int(x.subscribers.Load())\n\t// N.B. released after sending (after pings, before waiting for pongs)\n\tx.sendingMu.Lock()"),
+               ("chanpubsub.go", "\tsubscribers := int(x.subscribers.Load())\n\tif subscribers == 0 {\n\t\treturn 0 // no subscribers (slow path)", "\tif subscribers == 0 {\n\t\treturn 0 // no subscribers (slow path)")]},
+    {"id": "c06-wait-no-block", "prop": "C06", "note": "Wait does not block while pongN == 0",
+     "edits": [("chanpubsub.go", "\tfor x.pongN == 0 {\n\t\tx.pongC.Wait()\n\t\tx.checkBroken() // ALWAYS checkBroken after a wait\n\t}\n\n\tx.pongN-- // consume a pong", "\tif x.pongN == 0 {\n\t\treturn\n\t}\n\n\tx.pongN-- // consume a pong")]},
+    {"id": "c06-subscribe-no-rlock", "prop": "C06,C07", "note": "positive Add without sendingMu.RLock",
+     "edits": [("chanpubsub.go", "\t\tx.sendingMu.RLock()\n\t\tdefer x.sendingMu.RUnlock()\n\t\tsubscribers = x.addSubscribers(delta)", "\t\tsubscribers = x.addSubscribers(delta)")]},
+    # ---------------- C07
+    {"id": "c07-negadd-skips-ping", "prop": "C07", "note": "negative Add skips ping.Add(delta) when a send is in flight",
+     "edits": [("chanpubsub.go", "\t\t\tx.ping.Add(delta)\n\t\t\tsuccess = true", "\t\t\tsuccess = true")]},
+    {"id": "c07-send-keeps-lock", "prop": "C07", "note": "Send keeps sendingMu through the pong phase",
+     "edits": [("chanpubsub.go", "\tskipSendingUnlock = true\n\tx.sendingMu.Unlock() // we can add subscribers while waiting for pongs\n", "")]},
+    {"id": "c07-iter-no-unsubscribe", "prop": "C07", "note": "SubscribeContext iterator omits the deferred Unsubscribe",
+     "edits": [("chanpubsub.go", "\t\tdefer x.Unsubscribe()\n\n\t\tfor {", "\t\tfor {")]},
+    # ---------------- C08
+    {"id": "c08-add-no-rlock", "prop": "C08", "note": "positive Add without the read lock",
+     "edits": [("chancaster.go", "\t\t\tx.mutex.RLock()\n\t\t\tdefer x.mutex.RUnlock()\n", "")]},
+    {"id": "c08-negadd-receives-less", "prop": "C08", "note": "negative Add receives delta-1 values during a send",
+     "edits": [("chancaster.go", "\t\t\t\tfor range delta {\n\t\t\t\t\t<-x.C\n\t\t\t\t}", "\t\t\t\tfor range delta - 1 {\n\t\t\t\t\t<-x.C\n\t\t\t\t}")]},
+    {"id": "c08-send-returns-receivers", "prop": "C08", "note": "Send returns the initial receivers instead of the post-send count",
+     "edits": [("chancaster.go", "\treturn int(tracker)\n}", "\treturn int(receivers)\n}")]},
+    {"id": "c08-drop-range-check", "prop": "C08", "note": "negative Add drops the underflow range check",
+     "edits": [("chancaster.go", "\t\tif receivers := uint32(state >> 32); receivers <= maxReceivers &&\n\t\t\tmaxReceivers-receivers >= uint32(delta) {", "\t\tif receivers := uint32(state >> 32); true {")]},
 ]
